@@ -27,3 +27,20 @@ package objectcache
 //@     needs after m.cache.Remove($ck) where $ck == objectCacheKey($b, $k)
 //@ effect[C20:copy-invalidates-destination-head] every m.Next.CopyObject(_, _, _, $b, $k, _) -> (_, $err) if $err == nil
 //@     needs after m.cache.Remove($ck) where $ck == headCacheKey($b, $k)
+
+// Filling the cache while a body streams through: the pipe that feeds the cache writer is closed cleanly - which makes
+// the cache keep what it received as the whole body - only when the source reported io.EOF. A failed source read, a
+// failed pipe write and a Close before the end abort the fill with an error, so a truncated body is never cached, and
+// the cache receives exactly the bytes the caller received.
+//@ func (*cacheOnReadCloser).Read
+//@ mode effects
+//@ effect[C20:fill-completed-only-at-eof] never (*io.PipeWriter).Close() if err != io.EOF
+//@ effect[C20:fill-aborted-with-an-error] never (*io.PipeWriter).CloseWithError($e) if $e == nil && err != io.EOF
+//@ effect[C20:fill-gets-the-bytes-read] every (*io.PipeWriter).Write($b) where len($b) == n && n > 0
+//@ effect[C20:source-read-once] every r.ReadCloser.Read($q) where same($q, p)
+
+//@ func (*cacheOnReadCloser).Close
+//@ mode effects
+//@ effect[C20:early-close-never-completes-the-fill] never (*io.PipeWriter).Close()
+//@ effect[C20:early-close-aborts-the-fill] never (*io.PipeWriter).CloseWithError($e) if $e == nil
+//@ effect[C20:source-closed] every r.ReadCloser.Close()
